@@ -12,6 +12,7 @@ import Rare.Proofs.C15Trunc
 import Rare.Proofs.C15Starve
 import Rare.Proofs.C15Api
 import Rare.Proofs.C15Rename
+import Rare.Proofs.C15StatOpen
 import Rare.Model.C15Wiring
 import Rare.Gen.C15
 /-!
@@ -1117,6 +1118,42 @@ example : (Api.run (init [97, 98, 99]) [.read 2, .append [100, 101], .drain, .ap
     [.bytes [97, 98], .ok, .ok, .ok, .bytes [102], .ok, .eof] := by decide
 
 end Api
+
+/-! ## the atomicity assumption narrowed: `reopenIfReplaced` is `Stat`, then `Open` -/
+
+/-- **stat_open_linearizable.**  The notify LTS takes `reopenIfReplaced` as one transition; the code does
+    `os.Stat(path)` + `os.SameFile` first and `os.Open(path)` later.  For every reachable state `s1` (the
+    `Stat`) and EVERY interleaving of writer operations (append, remove, create, other events) and dispatches
+    of the fsnotify goroutine leading to `s2` (the `Open`): the outcome of the split execution is the outcome of
+    the atomic transition executed at the `Open` when the `Stat` saw another file or none (the path never gets
+    an old inode back, so "not the open file" is still true), and – when the `Stat` saw the open file – of the
+    atomic transition executed at the `Stat`, which does nothing.  What remains assumed: each single system
+    call is atomic, and the delete token is consumed at the linearization point (a token that arrives between
+    the two calls only causes one more, harmless, `reopenIfReplaced`). -/
+theorem stat_open_linearizable (c0 : Option (List β)) (tail reopen : Bool) {s1 s2 : NSt β}
+    (hr : NReach (srcN reopen) (ninit c0 tail) s1) (hs : EnvSteps (srcN reopen) s1 s2) :
+    reopenAfterStat (sameFile s1) s2 = (if sameFile s1 then s2 else reopenIfReplaced s2) ∧
+    (sameFile s1 = true → reopenIfReplaced s1 = s1) ∧ s2.f = s1.f ∧ s2.delivered = s1.delivered := by
+  have hi := ninv_reach (capW_ok reopen) (capD_ok reopen) c0 tail hr
+  have halloc : ∀ h, s1.f = some h → h.ino < s1.fs.next := fun h hf =>
+    (hi.core.bounds h (by simp [hf])).2.2
+  have he := envInv_steps hs
+  refine ⟨?_, ?_, he.handle, he.delivered⟩
+  · cases hsf : sameFile s1 with
+    | true => simp [reopenAfterStat]
+    | false =>
+      have h2 := not_same_stable hs halloc hsf
+      simp [reopenAfterStat, reopenIfReplaced, h2]
+  · intro hsf; simp [reopenIfReplaced, hsf]
+
+/-- Non-vacuity: `Stat` sees that the open file is gone (removed), the writer creates a new file and appends
+    before the `Open`: the split execution opens the NEW file from its beginning, like the atomic step there. -/
+example : ∃ s1 s2 : NSt Nat, NReach (srcN true) (ninit (some [1]) false) s1 ∧ EnvSteps (srcN true) s1 s2 ∧
+    sameFile s1 = false ∧ (reopenAfterStat (sameFile s1) s2).f = some ⟨1, 0, 0⟩ ∧ s2.fs.content 1 = [5] := by
+  have hr : NReach (srcN true) (ninit (some [(1 : Nat)]) false) _ :=
+    .step (.refl (s0 := ninit (some [(1 : Nat)]) false)) (.remove _ 0 rfl)
+  refine ⟨_, _, hr, .step (w := .writer) (by decide) (.create _ rfl)
+    (.step (w := .writer) (by decide) (.append _ 1 [5] rfl (by decide)) (.refl _)), rfl, rfl, rfl⟩
 
 /-! ## rotation by rename (`mv file file.1`, new file at the path) -/
 
